@@ -242,6 +242,77 @@ def derive_class(repo, cname):
             "line_save": sv.lineno, "line_set": si.lineno}
 
 
+def _eval_test(t, algo, hyper):
+    """truth of an `if` test for a given algorithm; atoms that do not speak about self.algo are optimistic (True)"""
+    if isinstance(t, ast.BoolOp):
+        vs = [_eval_test(v, algo, hyper) for v in t.values]
+        return all(vs) if isinstance(t.op, ast.And) else any(vs)
+    if isinstance(t, ast.UnaryOp) and isinstance(t.op, ast.Not):
+        inner = t.operand
+        if "self.algo" in _src(inner):
+            return not _eval_test(inner, algo, hyper)
+        return True
+    s = _src(t)
+    if isinstance(t, ast.Compare) and len(t.ops) == 1 and _src(t.left) == "self.algo":
+        rhs = _src(t.comparators[0])
+        if "Get_Hyperbolic_and_Parabolic_Types" in rhs:
+            val = algo in hyper or algo == "parabolic"
+        elif "Get_Hyperbolic_Types" in rhs:
+            val = algo in hyper
+        elif rhs.startswith("AlgoType."):
+            val = algo == rhs.split(".", 1)[1]
+        else:
+            raise FlagError("unrecognised algorithm test `%s`" % s)
+        if isinstance(t.ops[0], (ast.In, ast.Eq)):
+            return val
+        if isinstance(t.ops[0], (ast.NotIn, ast.NotEq)):
+            return not val
+        raise FlagError("unrecognised algorithm test `%s`" % s)
+    if "self.algo" in s:
+        raise FlagError("unrecognised algorithm test `%s`" % s)
+    return True
+
+
+def _walk_guarded(stmts, guards, out):
+    for st in stmts:
+        if isinstance(st, ast.If):
+            out.append((st.test, guards + [(st.test, True)]))      # atoms inside the test itself
+            _walk_guarded(st.body, guards + [(st.test, True)], out)
+            _walk_guarded(st.orelse, guards + [(st.test, False)], out)
+        elif isinstance(st, (ast.For, ast.While, ast.With, ast.Try)):
+            _walk_guarded(getattr(st, "body", []), guards, out)
+        else:
+            out.append((st, guards))
+
+
+def rates_by_algo(repo, cname, algos, hyper):
+    """per algorithm: keys Save_Iter stores, keys Set_Iter consults; missing = consulted but not stored"""
+    path = os.path.join(repo, "EasyFEA", "Simulations", SIM_FILES[cname])
+    cls = _cls(ast.parse(open(path).read()), SIM_CLASS[cname])
+    sv, si = [], []
+    _walk_guarded(_fn(cls, "Save_Iter").body, [], sv)
+    _walk_guarded(_fn(cls, "Set_Iter").body, [], si)
+    res = {}
+    for a in algos:
+        def live(guards):
+            return all(_eval_test(t, a, hyper) == pol for (t, pol) in guards)
+        stored = set()
+        for node, g in sv:
+            if live(g):
+                for n in ast.walk(node):
+                    if isinstance(n, ast.Assign) and len(n.targets) == 1 and re.fullmatch(r"iter\[['\"]\w+['\"]\]", _src(n.targets[0])):
+                        stored.add(n.targets[0].slice.value)
+        need = set()
+        for node, g in si:
+            if live(g):
+                srcn = _src(node)
+                need |= set(re.findall(r"results\[['\"](\w+)['\"]\]", srcn))
+                need |= set(re.findall(r"['\"](\w+)['\"] in results", srcn))
+        need -= {"indexMesh"}
+        res[a] = {"stored": sorted(stored), "consulted": sorted(need), "missing": sorted(need - stored)}
+    return res
+
+
 def b(x):
     return "true" if x else "false"
 
@@ -273,6 +344,7 @@ def gen_coq(base, classes):
     lines.append("Definition restores_mesh : bool := %s." % b(base["restores_mesh"]))
     lines.append("Definition get_results_stateless : bool := %s." % b(base["get_results_stateless"]))
     lines.append("Definition restores_unconditionally : bool := %s." % b(not any(classes[c]["guarded_restore"] for c in classes)))
+    lines.append("Definition stores_all_restored_rates : bool := %s." % b(base.get("stores_all_restored_rates", True)))
     return "\n".join(lines) + "\n", cfgs
 
 
@@ -409,6 +481,20 @@ def gen_directed(rng, cid, aname, nf, nkeys, kind, allow):
                 ops.append(["ResultQ", rng.randrange(h.niter), rng.randrange(nkeys)])
         if rng.random() < 0.5:
             h.setmesh(); h.solve(); h.save(); h.restore(rng.randrange(h.niter))
+    elif kind == "rates":
+        # time-dependent algorithms: a loaded trajectory, restore NON-latest iterations and replay the step
+        # that originally followed them (needs u, v, a / thermalDot of that iteration exactly)
+        h.solve(); h.solve(); h.save()
+        for _ in range(rng.choice([2, 3])):
+            h.solve(); h.save()
+        h.restore(rng.randrange(h.niter - 1), replay=True)
+        h.restore(h.niter - 1, "SetIterNeg")
+        h.solve(); h.save()
+        h.restore(rng.randrange(h.niter - 1), rng.choice(["SetIter", "SetIterNeg"]), replay=True)
+        ops.append(["ResultQ", rng.randrange(h.niter), rng.randrange(nkeys)])
+        if rng.random() < 0.5:
+            ops.append(["SetFolder", rng.choice([1, 2])])
+            h.solve(); h.save(); h.restore(h.niter - 1, "SetIterNeg"); h.restore(0, replay=True)
     elif kind == "virgin" or (kind == "meshes"):
         # the untouched state is an iteration like any other: saved before the first Solve, restored after
         # the history has moved far away from it, and continued again
@@ -562,10 +648,25 @@ def run(ctx):
         ctx.obligation("static-lib", False, log[-1500:])
         ctx.violation("static-lib-build", "coq/lib or coq/model does not build", {"log": log[-3000:]}, found_input=False)
         return
+    # ---- 0. which time algorithms exist / are accepted: asked to the implementation
+    rc, out, err = ctx.impl_python(script, input=json.dumps({"query": "algos"}), timeout=300)
+    if rc != 0:
+        ctx.obligation("corr:harness", False, err[-1500:])
+        ctx.violation("corr:impl-crash", "the implementation-side harness failed: " + (err.strip().splitlines()[-1][:200] if err.strip() else "rc=%d" % rc),
+                      {"stderr": err[-3000:]}, found_input=False)
+        return
+    ALG = json.loads(out)
     # ---- 1. flags from source
     try:
         base = derive_base(ctx.repo)
         classes = {c: derive_class(ctx.repo, c) for c in SIM_FILES}
+        per_algo = {c: rates_by_algo(ctx.repo, c, ALG["all"], ALG["hyperbolic"]) for c in SIM_FILES}
+        accepted = {"Elastic": ALG["all"], "HyperElastic": [a for a in ALG["all"] if a in ALG["supported"].get("HyperElastic_newmark", []) or a in ("elliptic",)],
+                    "Thermal": ["elliptic", "parabolic"], "WeakForms": ALG["all"], "Beam": ["elliptic"], "PhaseField": ["elliptic"], "InElastic": ["elliptic"]}
+        missing = {"%s:%s" % (c, a): per_algo[c][a]["missing"] for c in per_algo for a in accepted[c] if per_algo[c][a]["missing"]}
+        base["stores_all_restored_rates"] = not missing
+        if missing:
+            base["rates_consulted_but_not_stored"] = missing
     except (FlagError, SyntaxError, OSError) as ex:
         ctx.obligation("derive-flags", False, str(ex))
         ctx.violation("derive-flags", "the copy discipline of the iteration store could not be derived from the source: %s" % ex,
@@ -576,6 +677,7 @@ def run(ctx):
         gen, cfgs = gen_coq(base, classes)
         open(os.path.join(ctx.build, "Gen_C15.v"), "w").write(gen)
         ctx.cov["derived_flags"] = base
+        ctx.cov["stored_keys_per_algorithm"] = {c: {a: per_algo[c][a]["stored"] for a in accepted[c]} for c in ("Elastic", "Thermal", "HyperElastic", "WeakForms")}
         ctx.cov["guarded_restores"] = {c: classes[c]["guarded_restore"] for c in classes if classes[c]["guarded_restore"]}
         ctx.cov["derived_configs"] = {k: {kk: vv for kk, vv in v.items()} for k, v in cfgs.items()}
         aux_alias = {c: [k for k, (kind, s) in classes[c]["stored"].items() if kind == "alias"] for c in classes}
@@ -618,17 +720,41 @@ def run(ctx):
             full -= {"setmesh", "saveload"}
         if aname == "InElastic":
             full -= {"setmesh"}
+        algos = ALG["supported"].get(aname)            # hyperbolic configurations: every accepted algorithm
+        alphas = [0.5, 0.75, 1.0] if aname == "Thermal_parabolic" else None
+
+        def timed(c):
+            if algos:
+                c["algo"] = algos[len([x for x in cases if x["sim"] == aname]) % len(algos)] if c.get("systematic") else ctx.rng.choice(algos)
+                if c["algo"] in ("hht", "hht_newmark"):
+                    c["alpha"] = ctx.rng.choice([0.0, 0.05, 1 / 6, 0.3])
+            elif alphas:
+                c["alpha"] = ctx.rng.choice(alphas)
+            return c
+        if algos or alphas:
+            # systematic block: every algorithm the class accepts, at least once, on a history that restores
+            # non-latest iterations and replays their continuation
+            for a in (algos or alphas):
+                c = gen_directed(ctx.rng, cid, aname, nf_model, len(keys), "rates", full)
+                if algos:
+                    c["algo"] = a
+                    if a in ("hht", "hht_newmark"):
+                        c["alpha"] = ctx.rng.choice([0.05, 1 / 6, 0.3])
+                else:
+                    c["alpha"] = a
+                cases.append(c)
+                cid += 1
         for j in range(per):
             allow = set(full)
             if j % 3 == 1:
                 allow.discard("write")   # pure histories: restore must be exact
             if aname in ("Beam_static", "InElastic") and j % 2 == 0:
                 allow.discard("saveload")
-            cases.append(gen_case(ctx.rng, cid, aname, nf_model, len(keys), length, allow,
-                                  cfgs[aname]["restore_copy_fields"] if base is not None else ()))
+            cases.append(timed(gen_case(ctx.rng, cid, aname, nf_model, len(keys), length, allow,
+                                        cfgs[aname]["restore_copy_fields"] if base is not None else ())))
             cid += 1
         for j in range(ndirected):
-            cases.append(gen_directed(ctx.rng, cid, aname, nf_model, len(keys), ["meshes", "virgin", "last"][j % 3], full))
+            cases.append(timed(gen_directed(ctx.rng, cid, aname, nf_model, len(keys), ["meshes", "virgin", "last"][j % 3], full)))
             cid += 1
     probes = ["phasefield_history", "inelastic_state", "algo_change", "init_shared", "save_then_folder_change", "phasefield_save"]
     req = {"root": os.path.join(ctx.build, "scratch"), "cases": cases, "probes": probes}
@@ -648,6 +774,7 @@ def run(ctx):
             ctx.violation("corr:model-eval", "the model could not be evaluated on the generated cases: %s" % ex, {"log": str(ex)}, found_input=False)
     opdist = {}
     simdist = {}
+    algodist = {}
     mism = []
     seen_keys = {}
     ncmp = 0
@@ -655,26 +782,49 @@ def run(ctx):
         for o in c["ops"]:
             opdist[o[0]] = opdist.get(o[0], 0) + 1
         simdist[c["sim"]] = simdist.get(c["sim"], 0) + 1
+        ak = "%s:%s" % (c["sim"].split("_")[0], r.get("algo"))
+        algodist.setdefault(ak, {"cases": 0, "saved_iterations_with_nonzero_rates": 0})
+        algodist[ak]["cases"] += 1
+        algodist[ak]["saved_iterations_with_nonzero_rates"] += r.get("rates_nonzero", 0)
         kinds = sorted({o[0] for o in c["ops"]})
-        ctx.note_case("%s:%s:%d" % (c["sim"], ",".join(kinds), len(c["ops"])) if len(kinds) >= 4 else None)
+        trivial = len(kinds) < 4 or (r.get("algo") not in (None, "elliptic") and not r.get("rates_nonzero") and not r.get("error"))
+        ctx.note_case(None if trivial else "%s:%s:%s:%d:%d" % (c["sim"], r.get("algo"), ",".join(kinds), len(c["ops"]), c["id"] if c.get("algo") else 0))
         # ---- property predicates evaluated by the harness
         for f in r["fails"]:
             k = f["kind"]
             d = f["detail"]
             cls = c["sim"].split("_")[0]
+            algo = r.get("algo")
+            timedep = algo not in (None, "elliptic")
+            rate_fields = set(cfgs[c["sim"]]["keys"][1:]) if (base is not None and timedep) else set()
             if k == "store-changed" and str(d.get("after", "")).startswith("WriteRet:"):
                 src = d["after"].split(":", 1)[1]
                 key = "alias-backward:%s" % src
                 what = "writing in place into an array returned by %s changes stored iteration %d (%s entry): the returned dict is a shallow copy whose arrays are the stored arrays" % (src.replace(":", " of an "), d["iter"], d["kind_of_entry"])
                 exp = "stored iteration unchanged by writes into arrays handed to the user"
                 ks = ["store-changed"]
+            elif k == "restore-fields" and timedep and (set(d.get("fields", [])) & rate_fields) and not str(d.get("entry_corrupted_by") or "").startswith("WriteRet"):
+                key = "restore-rates:%s:%s" % (cls, algo)
+                what = "%s under %s: after Set_Iter/Result(iter=%d) with the SAME algorithm as at save time the live %s differ from what was live at Save_Iter" % (cls, algo, d["iter"], "/".join(d["fields"]))
+                exp = "u, v, a (thermalDot) bitwise equal to the ghost copies taken at Save_Iter"
+                ks = [k]
+            elif k == "continuation-differs" and timedep and cls != "PhaseField":
+                key = "continuation-differs:%s:%s" % (cls, algo)
+                what = "%s under %s: the step replayed after Set_Iter(i) differs from the step that originally followed iteration i: %s" % (cls, algo, json.dumps(d)[:200])
+                exp = "the same Solve from the restored iteration reproduces the original next iterate (1e-9 relative)"
+                ks = [k]
+            elif k == "store-changed" and timedep:
+                key = "store-changed:%s:%s:%s" % (d.get("after"), cls, algo)
+                what = "%s under %s: stored iteration %d (%s) does not read as what was saved after %s (fields %s)" % (cls, algo, d["iter"], d["kind_of_entry"], d.get("after"), d.get("fields"))
+                exp = "every stored iteration reads as the ghost copy taken at Save_Iter"
+                ks = ["store-changed"]
             elif k == "store-changed":
                 key = "store-changed:%s:%s" % (d.get("after"), cls)
                 what = "%s: stored iteration %d (%s) no longer reads as what was saved after %s" % (c["sim"], d["iter"], d["kind_of_entry"], d.get("after"))
                 exp = "every stored iteration reads as the ghost copy taken at Save_Iter"
                 ks = ["store-changed"]
-            elif k in ("restore-fields", "result-value", "get-results-value") and d.get("entry_corrupted_by"):
-                continue  # consequence of an already reported corruption of that entry
+            elif k in ("restore-fields", "result-value", "get-results-value") and str(d.get("entry_corrupted_by") or "").startswith("WriteRet"):
+                continue  # consequence of an already reported corruption of that entry by a user write
             elif k in ("restore-fields", "restore-mesh", "result-value", "get-results-value"):
                 key = "%s:%s" % (k, cls)
                 what = "%s: %s at op %d: %s" % (c["sim"], k, f["step"], json.dumps(d)[:200])
@@ -757,6 +907,7 @@ def run(ctx):
             mism.append((c, dif))
     ctx.cov["op_distribution"] = opdist
     ctx.cov["sim_distribution"] = simdist
+    ctx.cov["algorithm_coverage"] = algodist
     ctx.cov["model_vs_impl_final_states_compared"] = ncmp
     ctx.cov["rule"] = "random op lists (Solve/SaveIter/SetFolder/GetResults/SetIter/ResultQ/WriteRet/SetMesh/SaveLoad) per simulation class+mode, seeded by ctx.seed; non-trivial = at least 4 distinct op kinds; distinct = (class, kinds, length)"
     ctx.traces = len(cases)
